@@ -133,7 +133,7 @@ def run(ctx):
         worlds = [(1, 0, False), (3, 1, False)] if ctx.quick else [(1, 0, False), (3, 1, False), (3, 1, True), (4, 1, False), (5, 2, True)]
         for (m, t, no_prss) in worlds:
             tag = f'sortm{m}t{t}{"n" if no_prss else "p"}'
-            st, results, errors = run_batch(cases, evaluate, m, t, seed=ctx.seed + 1, no_prss=no_prss, chunk=20, max_steps=6000000)
+            st, results, errors = run_batch(cases, evaluate, m, t, seed=ctx.seed + 1, no_prss=no_prss, chunk=20, max_steps=60000000)
             if st != 'done' or any(errors):
                 ctx.violation('C29:run:not-complete', {'config': tag, 'status': st, 'errors': sorted({e[0][:80] for e in errors if e})[:3]})
                 continue
